@@ -68,6 +68,48 @@ def check_shape(t, rows, cols):
     return None
 
 
+def plain_text_oracle(ctx, ANSI, n):
+    """the clauses of C18_plain_text_is_emitted / C18_ordinary_character asked of the real terminal: after any completed history,
+    text without ESC = write_ch character by character, parser in INIT, memory untouched; an ordinary character left of the last
+    column changes exactly the cursor's cell and moves the cursor one column right"""
+    rng = ctx.rng
+    done = 0
+    for it in range(n):
+        rows, cols = rng.choice(SIZES + [(24, 80)])
+        hist = ''.join(gen_command(rng, rows, cols) for _ in range(rng.randint(0, 5)))
+        a, b = ANSI.ANSI(rows, cols), ANSI.ANSI(rows, cols)
+        try:
+            a.write(hist)
+            b.write(hist)
+        except Exception:
+            continue                       # totality is the main loop's business
+        if a.state.current_state != 'INIT':
+            continue
+        text = ''.join(rng.choice(['a', 'b', 'Z', ' ', '\r', '\n', '\x08', '\x07', '\t', '[', ';', '0', 'H', 'é', '☃', '\x00', '\x7f'])
+                       for _ in range(rng.randint(1, 2 * cols + 3)))
+        a.write(text)
+        for ch in text:
+            b.write_ch(ch)
+        done += 1
+        if observe(a) != observe(b) or a.state.current_state != 'INIT' or a.state.memory != [a]:
+            ctx.hit('C18/plain-text', 'ANSI(%d,%d) after %r: writing the ESC-free text %r differs from write_ch character by character (or leaves the parser outside INIT / with memory %r)'
+                    % (rows, cols, hist, text, a.state.memory[1:]), {'rows': rows, 'cols': cols, 'history': hist, 'text': text})
+            return
+        if a.cur_c < cols:
+            before = snapshot(a)
+            r0, c0 = a.cur_r, a.cur_c
+            ch = rng.choice('xyzQ#')
+            a.write(ch)
+            after = snapshot(a)
+            exp_grid = [list(row) for row in before[0]]
+            exp_grid[r0 - 1][c0 - 1] = ord(ch)
+            if after[0] != exp_grid or (a.cur_r, a.cur_c) != (r0, c0 + 1) or after[3:7] != before[3:7]:
+                ctx.hit('C18/ordinary-character', 'ANSI(%d,%d) after %r: writing %r at (%d,%d) did not change exactly that cell and move the cursor one column right (cursor now (%d,%d))'
+                        % (rows, cols, hist + text, ch, r0, c0, a.cur_r, a.cur_c), {'rows': rows, 'cols': cols, 'history': hist + text, 'ch': ch})
+                return
+    ctx.oracle_stats['plain_text_vs_write_ch'] = done
+
+
 def run(ctx):
     common.preflight()
     import warnings
@@ -148,6 +190,7 @@ def run(ctx):
                 # the bytes path itself in the model: the same pieces of bytes through the model's incremental decoder and parser
                 bcases.append(('(%s, %s, %s, %s)' % (cZ(rows), cZ(cols), common.cbool(mode == 'utf-8'), clist([ctext(p) for p in pieces])), observe(parts),
                                {'rows': rows, 'cols': cols, 'mode': mode, 'pieces': [repr(p) for p in pieces]}))
+    plain_text_oracle(ctx, ANSI, 8000 if thorough else 1000)
     # known finding K3: a CSI parameter longer than CPython's int() limit
     try:
         t = ANSI.ANSI(3, 4)
